@@ -386,6 +386,10 @@ def oracle(st, periodic, stats):
                                 want[kind].append((p["slot"], int(p["frozen"]), q["slot"], int(q["frozen"]), tuple(dd), a2,
                                                    "%d%d" % (0 if p["frozen"] else 1, 0 if q["frozen"] else 1)))
         for kind in ("free", "frozen"):
+            for q in got[kind]:
+                if q["ao"] != "%d%d" % (0 if q["fz1"] else 1, 0 if q["fz2"] else 1):
+                    bad.append("acts-on flags %s of listed pair (%d,%d) slots %d/%d frozen %d/%d: a frozen partner would be pushed or a free one not" %
+                               (q["ao"], a, b, q["s1"], q["s2"], q["fz1"], q["fz2"]))
             g = []
             for q in got[kind]:
                 t = (q["s1"], q["fz1"], q["s2"], q["fz2"], tuple(q["d"]), q["abs2"], q["ao"])
@@ -564,20 +568,22 @@ def main():
         tail = curd
         first_bad = None
         for k, st in enumerate(steps):
+            # the implementation-side oracle is applied to EVERY dumped state, also where model and code differ
+            for b in oracle(st, sc["periodic"], stats):
+                violations.append({"case": i, "step": st["step"], "what": b})
+            if first_bad is not None:
+                continue
             want = canon_dump(st)
             nsteps += 1
             if k >= len(dumps):
                 first_bad = {"case": i, "step": st["step"], "what": "model stopped: %s" % (tail[:1])}
-                break
+                continue
             got = dumps[k]
             if got != want:
                 for a, b in zip(got + ["<end>"] * len(want), want + ["<end>"] * len(got)):
                     if a != b:
                         first_bad = {"case": i, "step": st["step"], "model": a[:300], "code": b[:300]}
                         break
-                break
-            for b in oracle(st, sc["periodic"], stats):
-                violations.append({"case": i, "step": st["step"], "what": b})
         if first_bad is None:
             if failed:
                 stats["flewtoofar_cases"] += 1
